@@ -5,6 +5,7 @@ import PrologVerif.Driver.C03
 import PrologVerif.Driver.C08
 import PrologVerif.Driver.C14
 import PrologVerif.Driver.C11
+import PrologVerif.Driver.C19
 open PrologVerif PrologVerif.Driver
 
 def handlers : List (String × Handler) :=
@@ -19,7 +20,9 @@ def handlers : List (String × Handler) :=
     ("c14.isolation", C14.isoHandler),
     ("c11.collect", C11.handler),
     ("c11.collect.pinned", C11.handlerPinned),
-    ("c11.variant", C11.variantHandler) ]
+    ("c11.variant", C11.variantHandler),
+    ("c19.ops", C19.handler),
+    ("c19.out", C19.outHandler) ]
 
 partial def loop (h : IO.FS.Stream) (out : IO.FS.Stream) (f : Handler) : IO Unit := do
   let line ← h.getLine
